@@ -163,6 +163,9 @@ def make_inputs(ctx, base):
         with open(src, "rb") as fi, gzip.open(src + ".gz", "wb") as fo:
             fo.write(fi.read())
         ins[name] = src + ".gz"
+    with open(gff, "rb") as fi, gzip.open(gff + ".fasta.gz", "wb") as fo:
+        fo.write(fi.read() + b"##FASTA\n>chr1\nACGTACGTNN\n")
+    ins["gff_gz_fasta"] = gff + ".fasta.gz"
     for name, fn in (("gff_real", "FBgn0031208.gff"), ("gtf_real", "FBgn0031208.gtf")):
         p = os.path.join(data, fn)
         if os.path.exists(p):
@@ -302,7 +305,7 @@ def run(ctx):
     for k, v in solo.items():
         if v["final"] or v["rc"] != 0:
             ctx.violation({"input": k}, "solitary_run_leaves_files", {"listing": v["final"], "rc": v["rc"]})
-    kinds_menu = [("gff", "gtf"), ("gtf", "gff"), ("gtf", "gtf"), ("gff", "gff"), ("gtf_cds", "gtf"), ("gff", "gtf_cds"), ("gff_gz", "gtf_gz"), ("gtf_gz", "gff")]
+    kinds_menu = [("gff", "gtf"), ("gtf", "gff"), ("gtf", "gtf"), ("gff", "gff"), ("gtf_cds", "gtf"), ("gff", "gtf_cds"), ("gff_gz", "gtf_gz"), ("gtf_gz", "gff"), ("gff_gz_fasta", "gtf")]
     if "gff_real" in inputs:
         kinds_menu += [("gff_real", "gtf_real"), ("gtf_real", "gtf")]
     work = []
